@@ -232,7 +232,7 @@ func captureOutErr(fn func()) (string, string) {
 }
 
 func filterRun(f []string) string {
-	if len(f) != 6 {
+	if len(f) != 6 && !(len(f) == 7 && f[6] == "l") {
 		return "bad-args"
 	}
 	spec := parseClsSpec("h", f[4], f[5])
@@ -248,6 +248,9 @@ func filterRun(f []string) string {
 		for _, ig := range spec.ignores {
 			args = append(args, "-i", ig)
 		}
+	}
+	if len(f) == 7 { // --line: "<source> <number>: " in front of every match (theorem filter_line_prefix)
+		args = append(args, "-l")
 	}
 	args = append(args, "f0000")
 	app := cli.NewApp()
@@ -362,7 +365,11 @@ func cliGen(r *Rand, tier string) []string {
 			}
 			igS = strings.Join(hs, "+")
 		}
-		out = append(out, fmt.Sprintf("filtern %d %d %s %s %s", limit, r.Intn(2), Hex(data), igS, HexS(Pick(r, exs))))
+		cs := fmt.Sprintf("filtern %d %d %s %s %s", limit, r.Intn(2), Hex(data), igS, HexS(Pick(r, exs)))
+		if i%3 == 1 {
+			cs += " l"
+		}
+		out = append(out, cs)
 	}
 	return out
 }
@@ -401,6 +408,9 @@ func cliStats(st map[string]int, c string) {
 		st["flags."+f[1]]++
 	case "filtern":
 		st["filtern.cases"]++
+		if len(f) == 7 {
+			st["filtern.line-prefix"]++
+		}
 		if f[1] != "0" {
 			st["filtern.limited"]++
 		}
